@@ -195,7 +195,8 @@ AllIntegrityBad(obs, lenient) == UNION {IntegrityBad(obs[g], lenient) : g \in DO
 (*  kind "state"  [i, state]                 -> Obs(state) (oracle table for clean restarts) *)
 (*  kind "crash"  [i, calls, call, obs]      -> calls ran to completion, `call` was interrupted, *)
 (*                                              obs was read back after reopening              *)
-(*  kind "cont"   [i, calls, from, call, obs]-> after a crash whose outcome `from` was admissible *)
+(*  kind "cont"   [i, calls, interrupted, from, call, obs] -> after a crash (of `interrupted`)    *)
+(*                                              whose outcome `from` was admissible               *)
 (*                                              and had Integrity, `call` ran to completion       *)
 (*  kind "done"   [i, calls, call, obs]      -> `call` ran to completion, then the store was      *)
 (*                                              reopened and read back                            *)
@@ -210,7 +211,8 @@ Verdict(x) ==
              adm |-> AdmBad(s, x.call, ObsState(x.obs)),
              integ |-> AllIntegrityBad(x.obs, lenient)]
     [] x.kind = "cont" ->
-         LET lenient == AnyRelabel(x.calls) \/ Relabels(x.from, x.call)
+         LET f == RunCalls(x.calls)
+             lenient == AnyRelabel(x.calls) \/ Relabels(f[Len(x.calls)], x.interrupted) \/ Relabels(x.from, x.call)
              r == Eff(x.from, x.call)
          IN [i |-> x.i, res |-> r[2], after |-> r[1], lenient |-> lenient,
              same |-> ObsState(x.obs) = r[1],
